@@ -60,6 +60,11 @@ def gen_config(rng, profile="any", tier="quick"):
                 break
         d1 += 1
     reb = rng.choice(["weekly", "weekly", "daily", "end_of_month", "buy_and_hold"])
+    # REPEAT: the one situation in which a backtest asks for a price that does not exist yet - a buy-and-hold that
+    # sizes at 14:30 on the very first bar of the data, whose Open cell is empty
+    lead_bah = lead and rng.random() < 0.25
+    if lead_bah:
+        reb = "buy_and_hold"
     if whole_year:
         y_w = rng.randrange(2005, 2024)
         d0, d1 = cal.epoch_day(y_w, 1, 1), cal.epoch_day(y_w, 12, 31)
@@ -180,6 +185,8 @@ def gen_config(rng, profile="any", tier="quick"):
     if rng.random() < 0.2:
         faults.append("halt")              # a week or two without bars for an asset: prices are carried forward
     pre_days = rng.choice([0, 1, 3, 10]) if not lead else rng.choice([0, 0, 0, 1, 3])
+    if lead_bah:
+        pre_days = 0
     md0 = d0 - pre_days
     while not cal.is_bday(md0):
         md0 -= 1
@@ -220,13 +227,20 @@ def gen_config(rng, profile="any", tier="quick"):
                 firstrow[0] = md0
                 rows.append(firstrow)
     lead_applied = False
-    if (profile == "C07" or lead) and rng.random() < 0.3:
+    if lead_bah:
+        lead_applied = True
+        for sym in syms:
+            rows = sorted(market["assets"][sym]["rows"], key=lambda r: r[0])
+            if rng.random() < 0.7:
+                rows[0][1] = None
+                market["applied"].setdefault(sym, []).append("empty_cell:leading")
+    elif (profile == "C07" or lead) and rng.random() < (0.45 if lead else 0.3):
         lead_applied = True
         # leading empty cells: the first bar(s) of an asset carry no close (or no open) - a back-fill would reach
         # into the future here
         sym = rng.choice(syms)
         rows = sorted(market["assets"][sym]["rows"], key=lambda r: r[0])
-        for r_ in rows[:rng.randrange(1, 3)]:
+        for r_ in rows[:rng.randrange(1, 6 if lead else 3)]:
             if rng.random() < 0.5:
                 r_[4] = None
                 r_[5] = None
